@@ -11,6 +11,9 @@ for d in sorted(glob.glob('/verif/seeded/*')):
         continue
     meta = json.load(open(f'{d}/meta.json'))
     prop = meta['property']
+    if meta.get('detected_by_quick') is False:
+        print(f"{name}: not claimed ({meta.get('why_not', '')[:90]}...)", flush=True)
+        continue
     wt = f'/tmp/seedwt-{os.getpid()}'
     subprocess.call(['git', '-C', '/repo', 'worktree', 'remove', '--force', wt], stderr=subprocess.DEVNULL)
     subprocess.check_call(['git', '-C', '/repo', 'worktree', 'add', '--detach', wt, 'HEAD'], stdout=subprocess.DEVNULL, stderr=subprocess.DEVNULL)
